@@ -328,6 +328,8 @@ impl<Error> StreamingSoundHandle<Error> {
 	/// Returns an error that occurred while decoding audio, if any.
 	#[must_use]
 	pub fn pop_error(&mut self) -> Option<Error> {
+		#[cfg(kira_verif)]
+		crate::verif::yield_point("stream.handle.pop_error");
 		self.error_consumer.pop().ok()
 	}
 }
